@@ -220,3 +220,39 @@ def getitem_replay():
         return None
 
     return replay
+
+
+def patch_op_replay(clsname):
+    def replay(inputs):
+        import copy
+
+        import specs.rfc6902 as jspec
+
+        pm = importlib.import_module("jsonpath.patch")
+        ptr = importlib.import_module("jsonpath.pointer")
+        parts = tuple(real(inputs["parts"]))
+        data = real(inputs["data"])
+        value = real(inputs.get("value"))
+        if not isinstance(data, (list, dict)):
+            return None
+        specname = {"OpAdd": "op_add", "OpRemove": "op_remove", "OpReplace": "op_replace", "OpTest": "op_test"}[clsname]
+
+        def run(fn, *a):
+            d = copy.deepcopy(data)
+            p = ptr.JSONPointer.from_parts([]) if not parts else ptr.JSONPointer("", parts=parts, unicode_escape=False)
+            try:
+                r = fn(p, *a, d)
+                return ("returns", r)
+            except Exception as e:  # noqa: BLE001
+                fam = "JSONPatchError" if isinstance(e, pm.JSONPatchError) else ("JSONPointerError" if isinstance(e, ptr.JSONPointerError) else type(e).__name__)
+                return ("raises", fam)
+
+        cls = getattr(pm, clsname)
+        args = [] if clsname == "OpRemove" else [value]
+        got = run(lambda p, *a: cls(p, *a[:-1]).apply(a[-1]), *args)
+        want = run(getattr(jspec, specname), *args)
+        if got != want:
+            return f"{clsname}(path parts={parts!r}{', value=%r' % (value,) if args else ''}).apply({data!r}) {got[0]} {got[1]!r} but RFC 6902 {want[0]} {want[1]!r}"
+        return None
+
+    return replay
